@@ -61,7 +61,12 @@ fn check(prop: &'static str, tier: &str, runs_override: Option<u64>) -> i32 {
             run::<worlds::i::WorldI>(&mut agg, prop, runs_override.unwrap_or(if thorough { 40_000 } else { 500 }), thorough, &known, cap / 2);
             rule = RULE;
         }
-        "C01" | "C02" | "C03" | "C08" | "C09" | "C16" => {
+        "C08" => {
+            // every rotation is followed by a sweep over all installed sets: runs are ~3x heavier
+            run::<worlds::g::WorldG>(&mut agg, prop, n(Plan { quick: 1500, thorough: 100_000 }), thorough, &known, cap);
+            rule = RULE;
+        }
+        "C01" | "C02" | "C03" | "C09" | "C16" => {
             run::<worlds::g::WorldG>(&mut agg, prop, n(Plan { quick: 3000, thorough: 200_000 }), thorough, &known, cap);
             rule = RULE;
         }
